@@ -88,6 +88,30 @@ BodyShapes == SetToSeq({NoBody}
               \o [j \in 1 .. Len(Forms) |-> FormBody(Forms[j])]
               \o Multiparts
 
+\* operations on the specially stored request headers, carried out after everything else (H1Client!ApplyOp):
+\* one-byte values, exactly one / two cookies, a name written through the generic API and then through the dedicated
+\* setter and the other way round, written and then deleted
+Op(o, n, v) == [op |-> o, name |-> n, value |-> v]
+SpecialSets(cl) == <<
+    <<Op("setHost", "", "h")>>,
+    <<Op("set", "User-Agent", "u"), Op("setCT", "", "t")>>,
+    <<Op("setCookie", "a", "1")>>,
+    <<Op("setCookie", "a", "1"), Op("setCookie", "b", "2")>>,
+    <<Op("set", "Host", "g.example"), Op("setHost", "", "virt.example")>>,
+    <<Op("setHost", "", "virt.example"), Op("set", "Host", "g.example")>>,
+    <<Op("set", "Content-Length", cl)>>,
+    <<Op("setClose", "", ""), Op("set", "Connection", "keep-alive")>>,
+    <<Op("setClose", "", ""), Op("del", "Connection", "")>>,
+    <<Op("set", "Connection", "close")>>,
+    <<Op("setCookie", "a", "1"), Op("del", "Cookie", "")>>,
+    <<Op("set", "Host", "g.example"), Op("del", "Host", "")>>,
+    <<Op("set", "User-Agent", "ua/2"), Op("setUA", "", "u"), Op("set", "Content-Type", "text/a"), Op("setCT", "", "t")>>,
+    <<Op("setUA", "", "ua/2"), Op("set", "User-Agent", "u"), Op("del", "Content-Type", "")>>,
+    <<Op("setCookie", "a", "1"), Op("setCookie", "a", "2")>>,
+    <<Op("set", "Connection", "close"), Op("resetClose", "", "")>> >>
+\* (a generic 'Connection: keep-alive' followed by SetConnectionClose is the known finding C11-connection-both: set K only)
+NSpecial == 16
+
 Hosts == <<"example.com", "example.com:8080">>
 Paths == <<"/p", "/a//b", "/a/b/../c", "", "/a b", "/a/./b", "/a%20b", "/a/b/c", "//a/b", "/">>
 Queries == <<"", "x=1&y=a%20b", "q=a+b&z=">>
@@ -114,7 +138,12 @@ ProgOf(bi, hi, c, k) ==
                  frag |-> IF k % 7 = 3 /\ ~CfgReq(c).proxy /\ path # "" THEN "frag" ELSE "",
                  url |-> "",
                  hdrs |-> hs, body |-> b,
-                 opts |-> [close |-> (k % 4 = 1), hostHdr |-> IF k % 6 = 4 THEN "virt.example" ELSE ""]]
+                 opts |-> [close |-> (k % 4 = 1), hostHdr |-> IF k % 6 = 4 THEN "virt.example" ELSE ""],
+                 \* every third program (not those that Add User-Agent / Content-Type themselves, and content-type
+                 \* operations not on forms) carries one of the special-header operation lists
+                 special |-> IF k % 3 = 0 /\ hi # 3 /\ b.kind \notin {"form", "multipart"}
+                             THEN SpecialSets(IF b.kind \in {"bytes", "stream"} THEN ToDec(b.n) ELSE "0")[((k \div 3) % NSpecial) + 1]
+                             ELSE << >>]
     IN [base EXCEPT !.url = UrlOf(base)]
 
 ProgIdx == SetToSeq({<<bi, hi>> : bi \in 1 .. Len(BodyShapes), hi \in 1 .. Len(ReqHeaderSets)})
@@ -123,7 +152,8 @@ ProgsOf(c) == [j \in 1 .. Len(ProgIdx) |-> ProgOf(ProgIdx[j][1], ProgIdx[j][2], 
 
 \* simple programs used where the response is the subject
 Simple(method, b) == LET base == [method |-> method, host |-> "example.com", userinfo |-> "", path |-> "/p", query |-> "x=1", frag |-> "",
-                                  url |-> "", hdrs |-> <<H("X-A", "v1")>>, body |-> b, opts |-> [close |-> FALSE, hostHdr |-> ""]]
+                                  url |-> "", hdrs |-> <<H("X-A", "v1")>>, body |-> b, opts |-> [close |-> FALSE, hostHdr |-> ""],
+                                  special |-> << >>]
                      IN [base EXCEPT !.url = UrlOf(base)]
 SimpleProgs == <<Simple("GET", NoBody), Simple("POST", BytesBody(5)), Simple("PUT", StreamBody(9, -1, 4, "full")), Simple("GET", NoBody)>>
 HeadProg == Simple("HEAD", NoBody)
@@ -208,7 +238,7 @@ WithOrigins(p, s, x) ==
 Exchange(p, s, x) ==
     LET ps == WithOrigins(p, s, x) IN
     [prog |-> ps.prog, script |-> ps.script, wire |-> REncode(ps.script), headEnd |-> RHeadLen(ps.script),
-     wireLen |-> RWireLen(ps.script), peerClose |-> (RClosesAfter(ps.script) \/ ps.prog.opts.close)]
+     wireLen |-> RWireLen(ps.script), peerClose |-> (RClosesAfter(ps.script) \/ EffClose(ps.prog))]
 
 \* the script for a program: answers to HEAD only for HEAD
 ScriptFor(p, j) == IF p.method = "HEAD" THEN HeadScripts[(j % Len(HeadScripts)) + 1] ELSE PlainScripts[(j % Len(PlainScripts)) + 1]
@@ -302,6 +332,9 @@ CasesK ==
           [tag |-> "K-multipart-quote", cutX |-> 0, cfg |-> KCfg(st, FALSE), xs |-> <<Exchange(QuoteProg, ProbeScript, 1)>>],
           [tag |-> "K-head-then-get", cutX |-> 0, cfg |-> KCfg(st, FALSE),
            xs |-> <<Exchange(HeadProg, [ProbeScript EXCEPT !.head = TRUE], 1), Exchange(SimpleProgs[1], ProbeScript, 2)>>],
+          [tag |-> "K-connection-both", cutX |-> 0, cfg |-> KCfg(st, FALSE),
+           xs |-> <<Exchange([SimpleProgs[1] EXCEPT !.special = <<Op("set", "Connection", "keep-alive"), Op("setClose", "", "")>>], ProbeScript, 1),
+                    Exchange(SimpleProgs[1], ProbeScript, 2)>>],
           [tag |-> "K-authority-fragment", cutX |-> 0, cfg |-> KCfg(st, FALSE), xs |-> <<Exchange(NoPathFragProg, ProbeScript, 1)>>],
           [tag |-> "K-nonorm-empty-path", cutX |-> 0, cfg |-> [KCfg(st, FALSE) EXCEPT !.noNormPath = TRUE],
            xs |-> <<Exchange([NoPathSlashQueryProg EXCEPT !.query = "x=1", !.url = "http://example.com?x=1"], ProbeScript, 1)>>],
